@@ -21,3 +21,10 @@ Definition exn_eqb (a b : exn) : bool :=
   | ETag, ETag | ECapacity, ECapacity | EData, EData | ETopology, ETopology | EOther, EOther => true
   | _, _ => false
   end.
+
+(* how an entry point treats a label value on its way into a Labels object / an element (regenerated table
+   Gen/LabelValidators.v label_entry_points) *)
+Inductive ep_sem :=
+| EP_set_fields (forgiving fresh : bool)   (* through Labels._set_fields of a fresh (constructor) or copied (update) object *)
+| EP_unchecked                             (* written without any validation (plain attribute assignment) *)
+| EP_attach (revalidates : bool).          (* an object whose field was assigned directly is attached to a sliver / element *)
